@@ -266,6 +266,17 @@ class Runner:
         w.git("commit", "-q", "-am", "main")
         with open(os.path.join(w.work, "y.ipynb"), "w") as f:
             f.write(nb.replace('"metadata": {}', '"metadata": {"dirty": true}'))
+        # a second repository of the same user, with no configuration or attributes of its own: what --global commands
+        # achieve is judged there (the repository the command is run in may already route notebooks by itself)
+        self.other_repo = os.path.join(w.root, "other-repo")
+        os.makedirs(self.other_repo)
+        w.git("init", "-q", "-b", "main", ".", cwd=self.other_repo)
+        with open(os.path.join(self.other_repo, "x.ipynb"), "w") as f:
+            f.write(nb)
+        w.git("add", "x.ipynb", cwd=self.other_repo)
+        w.git("commit", "-q", "-m", "base", cwd=self.other_repo)
+        with open(os.path.join(self.other_repo, "x.ipynb"), "w") as f:
+            f.write(nb.replace('"metadata": {}', '"metadata": {"dirty": true}'))
         # attributes locations
         self.local_attrs = os.path.join(w.work, ".gitattributes")
         if tw["custom_attributesfile"]:
@@ -330,6 +341,16 @@ class Runner:
         w.git("checkout", "-q", "--", "x.ipynb", check=False)
         text = self._read(self.sentinel_log) or ""
         return ("git-nbdiffdriver diff" in text, "git-nbmergedriver merge" in text)
+
+    def probe_other(self):
+        """Is a notebook diff in the *other* repository routed to nbdime's diff driver?  (check-attr for both drivers.)"""
+        w = self.w
+        if os.path.exists(self.sentinel_log):
+            os.remove(self.sentinel_log)
+        w.git("diff", "--", "x.ipynb", check=False, cwd=self.other_repo)
+        text = self._read(self.sentinel_log) or ""
+        ca = w.git("check-attr", "diff", "merge", "--", "x.ipynb", check=False, cwd=self.other_repo).stdout.decode()
+        return ("git-nbdiffdriver diff" in text, ca)
 
     # ---------------- one command
     def argv_for(self, op):
@@ -634,6 +655,16 @@ class Runner:
                 self.stat("probe_disable_checked")
             return
         # enable: effective + idempotent
+        if target == "global" and outcome == "rc0" and comp in ("diffdriver", "mergedriver", "config-git"):
+            routed_other, ca = self.probe_other()
+            self.stat("probe_global_enable_judged_in_other_repository")
+            wanted = [a for a, c in (("diff", "diffdriver"), ("merge", "mergedriver")) if comp in (c, "config-git")]
+            missing = [a for a in wanted if ("%s: jupyternotebook" % a) not in ca]
+            if missing or ("diff" in wanted and not routed_other):
+                self.violate("S5", dict(sig, what="other_repository"),
+                             "after a successful enable --global, another repository of the same user does not route notebooks "
+                             "to nbdime (check-attr there: %r, diff driver invoked: %s)" % (ca, routed_other))
+                return
         if outcome != "rc0":
             sets = []
             if comp in ("difftool", "config-git"):
